@@ -12,7 +12,7 @@
 From Coq Require Import List NArith Bool Arith Lia ZifyN ZifyNat ZifyBool.
 From Tink Require Import Bytes AeadFrame AeadFrameProofs Ctr CtrProofs EtM EtMProofs
   Polyval GcmSiv GcmSivProofs Cmac Xaes XaesProofs Envelope EnvelopeProofs AeadKeyset AeadKeysetProofs
-  Mutation EtMProofs2 AeadFrameProofs2 XaesSivMutation EnvelopeDek EnvelopeProofs2.
+  Mutation EtMProofs2 AeadFrameProofs2 XaesSivMutation EnvelopeDek EnvelopeProofs2 EnvelopeDekEtm EnvelopeDekEtmProofs.
 Import ListNotations.
 Open Scope N_scope.
 
@@ -767,6 +767,36 @@ Proof.
   - apply (siv_dec_no_panic aes HA).
 Qed.
 Print Assumptions C02_envelope_never_panics_closed.
+
+(* KMS envelope over an AES-CTR-HMAC data key (model/EnvelopeDekEtm.v), closed over the AES-CTR-HMAC
+   model: Decrypt returns p exactly for the envelopes Encrypt can build (for some serialised data key
+   the key-encryption AEAD encrypts), and never panics *)
+Theorem C02_envelope_ctrhmac_dek_accepts_exactly :
+  forall (aes : bytes -> bytes -> bytes) (hmacs : N -> bytes -> bytes -> bytes),
+    (forall k b, length (aes k b) = 16%nat) ->
+    (forall h hl, hash_len h = Some hl -> forall k m, length (hmacs h k m) = hl) ->
+    forall kek_enc kek_dec kivlen, kek_rt kek_enc kek_dec kivlen -> kek_only kek_enc kek_dec kivlen ->
+    forall ivsz c ad p, wfb c -> lenN c <= MaxInt ->
+      (env_dec kek_dec (etm_dek_dec aes hmacs ivsz) c ad = Ok p <->
+       exists dek kekiv dekiv, length kekiv = kivlen /\ length dekiv = ivsz /\
+         env_enc kek_enc (etm_dek_enc aes hmacs ivsz) dek kekiv dekiv p ad = Ok c).
+Proof.
+  intros aes hmacs HA HH ke kd kl HK HKO ivsz c ad p Hw Hc.
+  exact (env_accept_iff_etm aes hmacs HA HH ke kd kl ivsz c ad p HK HKO Hw Hc).
+Qed.
+Print Assumptions C02_envelope_ctrhmac_dek_accepts_exactly.
+
+Theorem C02_envelope_ctrhmac_dek_never_panics :
+  forall (aes : bytes -> bytes -> bytes) (hmacs : N -> bytes -> bytes -> bytes),
+    (forall k b, length (aes k b) = 16%nat) ->
+    (forall h hl, hash_len h = Some hl -> forall k m, length (hmacs h k m) = hl) ->
+    forall kek_dec, (forall c ad, kek_dec c ad <> Panic) ->
+    forall ivsz c ad, env_dec kek_dec (etm_dek_dec aes hmacs ivsz) c ad <> Panic.
+Proof.
+  intros aes hmacs HA HH kd HK ivsz c ad.
+  exact (env_dec_no_panic_etm aes hmacs HA HH kd ivsz c ad HK).
+Qed.
+Print Assumptions C02_envelope_ctrhmac_dek_never_panics.
 
 (* Non-vacuity of the stretch theorems.  (1) The forgery event of the reductions is real, not
    an artefact: with a constant MAC / the toy AEAD (which have no authenticity) a body bit flip
